@@ -460,6 +460,8 @@ class XPathToken(Token[ta.XPathTokenType]):
                         yield value
 
                     if value is None:
+                        if item.nilled:
+                            return  # the typed value of a nilled element is the empty sequence
                         msg = f"argument node {item!r} does not have a typed value"
                         raise self.error('FOTY0012', msg)
                 else:
